@@ -190,6 +190,12 @@ def discharge(s):
 # ---- backing predicates --------------------------------------------------------------------------------------
 
 def _b_magnitude(F, s, e):
+    """The strict magnitude gate |x| < 2^31 dominates the cast, and what is cast is |x| itself: the gate says nothing about
+    the sign, `x as u32` of a negative shift count is 2^32 - |x| (`1 << -1` tried to compute 2^4294967295)."""
+    r = s.ap[0]
+    is_abs = r[0] == "call" and r[1].endswith(("::abs", "::unsigned_abs")) and not s.ap[1]
+    if not is_abs and s.detail.get("from", "").startswith("i") and s.detail.get("to", "").startswith("u"):
+        return False, "the operand of the signed-to-unsigned cast is %s, not an absolute value" % ap_str(s.ap)[:80]
     return k1._magnitude_gate(F, k1.Site(s.fn, s.bb, "call", "cast", s.fn.blocks[s.bb]["term"], False), e)
 
 
